@@ -127,7 +127,7 @@ class Inst:
             data = ref_file(self.msgs, spec['codec'], spec['blocked'], spec.get('cfg'))
             cls = mciipm.IpmReader if spec['role'] == 'reader' else mciipm.VbsReader
             kw = {'encoding': spec['codec'], 'iso_config': spec.get('cfg')} if spec['role'] == 'reader' else {}
-            self.obj = cls(in_stream(data), blocked=spec['blocked'], **kw)
+            self.obj = cls(in_stream(data, spec['blocked']), blocked=spec['blocked'], **kw)
             self.it = iter(self.obj)
 
     def step(self):
@@ -156,7 +156,7 @@ def impl(case):
             f = bytes.fromhex(res['file'][3:])
 
             def rd():
-                return [iu.dict_text(d) for d in mciipm.IpmReader(in_stream(f), encoding=case['codec'], blocked=case['blocked'], iso_config=case['cfg'])]
+                return [iu.dict_text(d) for d in mciipm.IpmReader(in_stream(f, case['blocked']), encoding=case['codec'], blocked=case['blocked'], iso_config=case['cfg'])]
             res['read'] = outcome(rd, lambda l: '/'.join(l) or '-')
         return res
     before = (mciipm.VbsReader.record_number, mciipm.VbsReader.last_record, mciipm.IpmReader.record_number)
